@@ -5,6 +5,7 @@ CONSTANTS
   ThirdChoices = {TRUE, FALSE}
   DelChoices = {"none", "R", "W", "PA", "PB"}
   BlackoutChoices = {0, 1}
+  PostChoices = {"none"}
   MatchOnCreate = TRUE
   RematchFix = TRUE
   GenK = 100
